@@ -7,7 +7,9 @@ CONSTANTS
   MaxEmit = 1
   MaxSreq = 0
   MaxSa = 0
+  MaxBc = 0
+  DupOf <- NoDup
   Gates = FALSE
 VIEW MCView
-INVARIANTS ResumeExact IdsDense IdStable StoreBeforeDeliver CompleteAtEnd CompleteAtRest FinalObtainable RefusedOnlyOnConflict ResponseOnOwnExchange NestedRouting NoCrossSession RoutingEntryLifecycle LockDiscipline
+INVARIANTS ResumeExact IdsDense IdStable StoreBeforeDeliver CompleteAtEnd CompleteAtRest FinalObtainable RefusedOnlyOnConflict ResponseOnOwnExchange NestedRouting NoCrossSession RoutingEntryLifecycle LockDiscipline IdUnique
 CHECK_DEADLOCK FALSE
